@@ -2,17 +2,321 @@
 
 package main
 
+// C18: native flavours vs portable Go, Go skipper vs native skipper, native text encoders.
+// Built only with the verification overlay (tools/mkoverlay.py): conv.VerifNativeFlavour re-binds the
+// native stubs at run time, conv/j2tgo is conv/j2t forced onto its portable implementation.
+
 import (
+	"context"
+	"encoding/json"
 	"fmt"
+	"math"
+	"math/rand"
+	"strconv"
+	"strings"
+	"syscall"
 
 	"github.com/cloudwego/dynamicgo/conv"
+	"github.com/cloudwego/dynamicgo/conv/j2t"
 	j2tgo "github.com/cloudwego/dynamicgo/conv/j2tgo"
+	"github.com/cloudwego/dynamicgo/conv/t2j"
+	"github.com/cloudwego/dynamicgo/thrift"
 )
 
 func init() { mains["c18"] = c18Main }
 
+var flavours = []string{"avx2", "avx", "sse"}
+
+type c18 struct {
+	c02
+	g *gpage
+}
+
+type flavRes struct {
+	Flav string `json:"flav"`
+	St   string `json:"st"`
+	Cls  string `json:"cls"`
+	Out  B      `json:"out"`
+}
+
+func (c *c18) j2tCase(jc J2TCase) {
+	c.cases++
+	var text []byte
+	if jc.TextB != nil {
+		text = jc.TextB
+	} else if jc.Text != nil {
+		text = []byte(*jc.Text)
+	} else {
+		text = []byte(printJX(jc.J, rand.New(rand.NewSource(jc.Seed)), jc.Variant == "b64-escaped", false))
+	}
+	d, err := parseChecked(text)
+	if err != nil {
+		die("the harness printed JSON its own reader rejects: %v: %q", err, text)
+	}
+	if jc.O.I2s {
+		jc.O.S2i = true
+	}
+	opts := conv.Options{String2Int64: jc.O.S2i, NoBase64Binary: jc.O.Nob64, DisallowUnknownField: jc.O.Disallow,
+		WriteRequireField: jc.O.Wreq, WriteDefaultField: jc.O.Wdef, WriteOptionalField: jc.O.Wopt}
+	var rs []flavRes
+	run := func(flav string, f func(in []byte) ([]byte, error)) {
+		r := flavRes{Flav: flav, Out: B{}}
+		func() {
+			defer func() {
+				if e := recover(); e != nil {
+					r.St = "panic:" + fmt.Sprint(e)
+				}
+			}()
+			out, err := f(append([]byte(nil), text...))
+			if err != nil {
+				r.St, r.Cls = "err", errClass(err)
+				return
+			}
+			r.St, r.Out = "ok", B(append([]byte{}, out...))
+		}()
+		rs = append(rs, r)
+	}
+	for _, fl := range flavours {
+		conv.VerifNativeFlavour(fl)
+		cv := j2t.NewBinaryConv(opts)
+		run(fl, func(in []byte) ([]byte, error) { return cv.Do(context.Background(), c.root, in) })
+	}
+	conv.VerifNativeFlavour("avx2")
+	gv := j2tgo.NewBinaryConv(opts)
+	run("go", func(in []byte) ([]byte, error) { return gv.Do(context.Background(), c.root, in) })
+	c.out.Emit(map[string]interface{}{"ev": "J2T", "d": d, "s2i": jc.O.S2i, "nob64": jc.O.Nob64, "disallow": jc.O.Disallow,
+		"wreq": jc.O.Wreq, "wdef": jc.O.Wdef, "wopt": jc.O.Wopt, "optbm": jc.O.Optbm, "usedflt": jc.O.Usedflt,
+		"variant": jc.Variant, "res": rs, "text": string(text),
+		"case": J2TCase{Desc: &c.cur, Variant: jc.Variant, TextB: B(text), O: jc.O}})
+}
+
+// ---- value skipping ----
+
+type skipRes struct {
+	Flav string `json:"flav"`
+	Ok   bool   `json:"ok"`
+	N    int    `json:"n"`
+}
+
+func (c *c18) skipCase(t int, b []byte, tag interface{}) {
+	c.cases++
+	in := c.g.place(b)
+	var rs []skipRes
+	one := func(flav string, native bool) {
+		r := skipRes{Flav: flav}
+		func() {
+			defer func() {
+				if e := recover(); e != nil {
+					r.Flav = flav + ":panic"
+				}
+			}()
+			p := thrift.BinaryProtocol{Buf: in}
+			if err := p.Skip(thrift.Type(t), native); err == nil {
+				r.Ok, r.N = true, p.Read
+			}
+		}()
+		rs = append(rs, r)
+	}
+	one("go", false)
+	for _, fl := range flavours {
+		conv.VerifNativeFlavour(fl)
+		one(fl, true)
+	}
+	conv.VerifNativeFlavour("avx2")
+	c.out.Emit(map[string]interface{}{"ev": "Skip", "t": t, "b": B(b), "res": rs, "case": tag})
+}
+
+// ---- text encoders, observed through t2j on a one-field struct ----
+
+type encRes struct {
+	Flav string `json:"flav"`
+	Same bool   `json:"same"`
+	Text string `json:"text"`
+}
+
+type encFix struct {
+	i64, dbl, str *thrift.TypeDescriptor
+}
+
+func newEncFix() encFix {
+	idl := "namespace go x\nstruct I { 1: i64 v }\nstruct D { 1: double v }\nstruct S { 1: string v }\nservice Svc { I A(1: I r)\n D B(1: D r)\n S C(1: S r) }\n"
+	svc, err := thrift.NewDescritorFromContent(context.Background(), "e.thrift", idl, nil, true)
+	if err != nil {
+		die("enc idl: %v", err)
+	}
+	get := func(m string) *thrift.TypeDescriptor {
+		f, _ := svc.LookupFunctionByMethod(m)
+		return f.Request().Struct().FieldById(1).Type()
+	}
+	return encFix{get("A"), get("B"), get("C")}
+}
+
+func (c *c18) encCase(fx encFix, kind, cls string, v []byte) {
+	c.cases++
+	var desc *thrift.TypeDescriptor
+	var doc []byte
+	switch kind {
+	case "i64":
+		desc, doc = fx.i64, append(append([]byte{10, 0, 1}, v...), 0)
+	case "f64":
+		desc, doc = fx.dbl, append(append([]byte{4, 0, 1}, v...), 0)
+	case "str":
+		desc = fx.str
+		doc = append([]byte{11, 0, 1, byte(len(v) >> 24), byte(len(v) >> 16), byte(len(v) >> 8), byte(len(v))}, v...)
+		doc = append(doc, 0)
+	}
+	in := c.g.place(doc) // strings end right before an inaccessible page
+	var rs []encRes
+	for _, fl := range flavours {
+		conv.VerifNativeFlavour(fl)
+		r := encRes{Flav: fl}
+		func() {
+			defer func() {
+				if e := recover(); e != nil {
+					r.Text = "panic:" + fmt.Sprint(e)
+				}
+			}()
+			cv := t2j.NewBinaryConv(conv.Options{})
+			out, err := cv.Do(context.Background(), desc, in)
+			if err != nil {
+				r.Text = "err:" + err.Error()
+				return
+			}
+			s := string(out)
+			if !strings.HasPrefix(s, `{"v":`) || !strings.HasSuffix(s, "}") {
+				r.Text = "shape:" + s
+				return
+			}
+			lit := s[5 : len(s)-1]
+			r.Text = lit
+			switch kind {
+			case "i64":
+				r.Same = lit == strconv.FormatInt(fromBE8(v), 10)
+			case "f64":
+				f, perr := strconv.ParseFloat(lit, 64)
+				r.Same = perr == nil && math.Float64bits(f) == uint64(fromBE8(v)) && json.Valid([]byte(lit))
+			case "str":
+				var back string
+				r.Same = json.Unmarshal([]byte(lit), &back) == nil && back == string(v)
+			}
+			if len(r.Text) > 80 {
+				r.Text = r.Text[:80]
+			}
+		}()
+		rs = append(rs, r)
+	}
+	conv.VerifNativeFlavour("avx2")
+	c.out.Emit(map[string]interface{}{"ev": "Enc", "kind": kind, "cls": cls, "v": B(v), "res": rs, "case": map[string]interface{}{"enc": kind, "cls": cls, "v": B(v)}})
+}
+
 func c18Main(args map[string]string) {
-	conv.VerifNativeFlavour("sse")
-	_ = j2tgo.NewBinaryConv(conv.Options{})
-	fmt.Println("c18 stub")
+	out := newOut(args["out"])
+	defer out.Close()
+	c := &c18{g: newGpage(1 << 20)}
+	c.out = out
+	c.prop = "c18"
+	idx := 0
+	fx := newEncFix()
+	if cf := args["cases"]; cf != "" {
+		readLines(cf, func(line []byte) {
+			var probe struct {
+				Enc  string `json:"enc"`
+				Cls  string `json:"cls"`
+				V    B      `json:"v"`
+				Skip *struct {
+					T int `json:"t"`
+					B B   `json:"b"`
+				} `json:"skip"`
+			}
+			json.Unmarshal(line, &probe)
+			idx++
+			switch {
+			case probe.Enc != "":
+				if idx-1 >= startAt {
+					c.out.Begin(idx-1, probe)
+					c.encCase(fx, probe.Enc, probe.Cls, probe.V)
+				}
+			case probe.Skip != nil:
+				if idx-1 >= startAt {
+					c.out.Begin(idx-1, probe)
+					c.skipCase(probe.Skip.T, probe.Skip.B, probe)
+				}
+			default:
+				var jc J2TCase
+				if err := json.Unmarshal(line, &jc); err != nil {
+					die("bad case: %v: %s", err, line)
+				}
+				if jc.Desc != nil {
+					c.setDesc(*jc.Desc, c.popts(jc.O))
+				}
+				if idx-1 < startAt || (jc.J == nil && jc.Text == nil && jc.TextB == nil) {
+					return
+				}
+				if jc.J != nil {
+					fixJX(jc.J)
+				}
+				if jc.Seed == 0 {
+					jc.Seed = int64(idx) * 7919
+				}
+				c.out.Begin(idx-1, jc)
+				c.j2tCase(jc)
+			}
+		})
+	}
+	seed := int64(atoi(args["seed"]))
+	// random conforming and non-conforming documents (C02's generator)
+	for i := 0; i < atoi(args["n"]); i++ {
+		idx++
+		if idx-1 < startAt {
+			continue
+		}
+		r := rand.New(rand.NewSource(seed*1000003 + int64(i)))
+		d := randDescGraph(r, true)
+		for k := 0; k < 4; k++ {
+			o := J2TOpts{S2i: r.Intn(2) == 0, Nob64: r.Intn(2) == 0, Disallow: r.Intn(5) == 0, Wreq: true}
+			c.setDesc(d, c.popts(o))
+			x := genDoc(r, c.cur.From, c.cur, 0, o)
+			fixJX(&x)
+			jc := J2TCase{Variant: "random", J: &x, O: o, Seed: r.Int63()}
+			c.out.Begin(idx-1, jc)
+			c.j2tCase(jc)
+			// skipping: a conforming value of this descriptor, and a mutilated copy
+			v := convConforming(r, c.cur.From, c.cur, 0, false, false).Enc(nil)
+			c.skipCase(c.cur.From.T, v, map[string]interface{}{"skip": map[string]interface{}{"t": c.cur.From.T, "b": B(v)}})
+			if len(v) > 2 {
+				m := append([]byte(nil), v...)
+				m[r.Intn(len(m))] = byte([]int{0, 1, 11, 12, 13, 15, 127, 128, 255}[r.Intn(9)])
+				m = m[:1+r.Intn(len(m))]
+				c.skipCase(c.cur.From.T, m, map[string]interface{}{"skip": map[string]interface{}{"t": c.cur.From.T, "b": B(m)}})
+			}
+		}
+	}
+	// scalar text encoders: random values on top of the TLC-made boundary values
+	ps := syscall.Getpagesize()
+	for i := 0; i < atoi(args["nenc"]); i++ {
+		idx++
+		if idx-1 < startAt {
+			continue
+		}
+		r := rand.New(rand.NewSource(seed*7777 + int64(i)))
+		c.out.Begin(idx-1, map[string]interface{}{"encrand": i, "seed": seed})
+		c.encCase(fx, "i64", "random", be8(int64(r.Uint64())>>uint(r.Intn(64))))
+		if fb := r.Uint64(); fb>>52&0x7ff != 0x7ff { // finite doubles only: t2j refuses NaN and infinities
+			c.encCase(fx, "f64", "random", be8(int64(fb)))
+		}
+		// strings: escape-relevant code points, lengths around the 16/32-byte lanes and the page size
+		alpha := []string{"a", "\"", "\\", "/", "\n", "\t", "\x00", "\x1f", "\x7f", "é", "中", "😀", " ", "<", "&", " "}
+		lens := []int{0, 1, 15, 16, 17, 31, 32, 33, 47, 48, 63, 64, 65, ps - 1, ps, ps + 1, 100 + r.Intn(200)}
+		n := lens[r.Intn(len(lens))]
+		var sb strings.Builder
+		for sb.Len() < n {
+			if r.Intn(4) == 0 {
+				sb.WriteString(alpha[r.Intn(len(alpha))])
+			} else {
+				sb.WriteByte(byte('a' + r.Intn(26)))
+			}
+		}
+		c.encCase(fx, "str", fmt.Sprintf("len%d", n), []byte(sb.String()))
+	}
+	fmt.Printf("c18 cases=%d events=%d\n", c.cases, out.n)
 }
